@@ -37,7 +37,7 @@ Section Override.
   Variable vuln_ids : list vid.
 
   (* ---- getVersionsGreater *)
-  (* semvers[key]: parsed version if key is one of the listed versions and parses, else nil *)
+  (* semvers[key]: parsed version if key is one of the given versions and parses, else nil *)
   Definition sem (vs : list ver) (v : ver) : option Z :=
     if existsb (N.eqb v) vs then rank v else None.
 
@@ -74,9 +74,11 @@ Section Override.
   (* slices.BinarySearchFunc(versions, target, cmpFunc), then offset++ if found, then versions[offset:] *)
   Definition get_versions_greater (vs : list ver) (vk : ver) : list ver :=
     let s := sorted_versions vs in
-    let off := bsearch_idx (fun e => is_lt (cmpf vs e vk)) vk s in
+    (* the given version gets its own entry in semvers when it parses, listed or not *)
+    let c := cmpf (vk :: vs) in
+    let off := bsearch_idx (fun e => is_lt (c e vk)) vk s in
     let found := Nat.ltb off (length s) &&
-                 match cmpf vs (nth off s vk) vk with Eq => true | _ => false end in
+                 match c (nth off s vk) vk with Eq => true | _ => false end in
     skipn (if found then S off else off) s.
 
   (* ---- the ascending scan for "the minimal greater version that fixes as many as possible" *)
